@@ -256,6 +256,11 @@ func (m *vfModel) started(w *vfWorker, got *vfReq) {
 	for k := retained; k < len(w.stickyStart); k++ {
 		w.stickyStart[k] = now
 	}
+	if ws := m.r.workerState(w.w); ws != nil {
+		for k := range w.stickyStart {
+			rt.Assert(k < len(ws.stickinessStartingTimes) && ws.stickinessStartingTimes[k].Equal(w.stickyStart[k]), "per level, the stickiness window starts when the worker started serving its current invocation of that level")
+		}
+	}
 	got.state = 1
 	w.running = got
 	for k := 0; k <= len(got.keys); k++ {
@@ -287,14 +292,14 @@ func vfKeys(which int) []string {
 	}
 }
 
-func vfNewModel(nReq, nWorkers, shapes int, limits []time.Duration, symbolic bool) *vfModel {
+func vfNewModel(nReq, nWorkers int, shapes []int, limits []time.Duration, symbolic bool) *vfModel {
 	priorities := symbolic
 	r := vsNewRig(1)
 	m := &vfModel{r: r, limits: limits, lastStarted: map[string]time.Time{}}
 	p := vsPlatform("os", "linux")
 	rt.Assert(r.bq.RegisterPredeclaredPlatformQueue(digest.EmptyInstanceName, p, limits, 0, 0, []uint32{0}) == nil, "queue registered")
 	for k := 0; k < nReq; k++ {
-		keys := vfKeys(rt.Choose(shapes))
+		keys := vfKeys(shapes[rt.Choose(len(shapes))])
 		q := &vfReq{keys: keys, hash: r.addAction(0x10+k, p, false), queuedAt: r.clock.now}
 		if priorities && rt.NondetBool("low priority") {
 			q.priority = 100
@@ -389,7 +394,7 @@ func verifHarness_C04_FairOrderSticky() {
 	rt.Bound("picks", picks)
 	rt.Bound("workers", 1)
 	rt.MustCover("fair:child", "fair:direct", "fair:stickiness-turned-a-tie")
-	m := vfNewModel(nReq, 1, 2, []time.Duration{100 * time.Second, 10 * time.Second}, false)
+	m := vfNewModel(nReq, 1, []int{0, 1}, []time.Duration{100 * time.Second, 10 * time.Second}, false)
 	vfDrive(m, picks, 2+rt.Tier())
 }
 
@@ -404,6 +409,26 @@ func verifHarness_C04_FairOrderPriorities() {
 	rt.Bound("picks", picks)
 	rt.Bound("workers", 2)
 	rt.MustCover("fair:child", "fair:direct")
-	m := vfNewModel(nReq, 2, 3+2*rt.Tier(), nil, true)
+	shapes := []int{0, 1, 2}
+	if rt.Tier() > 0 {
+		shapes = []int{0, 1, 2, 3, 4}
+	}
+	m := vfNewModel(nReq, 2, shapes, nil, true)
 	vfDrive(m, picks, 1)
+}
+
+// One stickiness level, two workers, flat invocations: a worker that keeps
+// being handed its own invocation on score alone keeps its window.
+func verifHarness_C04_FairOrderStickyTwoWorkers() {
+	rt.PreemptionBound(0)
+	nReq, picks := 3, 3
+	if rt.Tier() > 0 {
+		nReq, picks = 5, 5
+	}
+	rt.Bound("requests", nReq)
+	rt.Bound("picks", picks)
+	rt.Bound("workers", 2)
+	rt.MustCover("fair:child", "fair:direct", "fair:stickiness-turned-a-tie")
+	m := vfNewModel(nReq, 2, []int{2, 3}, []time.Duration{10 * time.Second}, false)
+	vfDrive(m, picks, 2)
 }
